@@ -124,6 +124,17 @@ var c10Entries = []c10Entry{
 	{"Group.RenderWithFile", false, func(t c10Tree, nf bool, w io.Writer) error {
 		return c10Group(t).RenderWithFile(w, jen.NewFilePathName("a/b", "b"))
 	}},
+	// (a fragment is formatted whatever the File's NoFormat says)
+	{"Statement.RenderWithFile(NoFormat File)", false, func(t c10Tree, nf bool, w io.Writer) error {
+		f := jen.NewFile("b")
+		f.NoFormat = true
+		return t.build().RenderWithFile(w, f)
+	}},
+	{"Group.RenderWithFile(NoFormat File)", false, func(t c10Tree, nf bool, w io.Writer) error {
+		f := jen.NewFile("b")
+		f.NoFormat = true
+		return c10Group(t).RenderWithFile(w, f)
+	}},
 }
 
 // injected is the error a faulty writer returns: a value of its own that wraps one of the error
